@@ -561,8 +561,10 @@ class GroupBy:
             return
 
         if self._group_key_pointers is not None:
+            # the appended -1 slot keeps the null code (-1) null after re-mapping
             chunks = [
-                p[k] for p, k in zip(self._group_key_pointers, self._group_ikey.chunks)
+                np.append(p, -1)[k]
+                for p, k in zip(self._group_key_pointers, self._group_ikey.chunks)
             ]
             self._group_key_pointers = None
         elif keep_chunked:
